@@ -782,6 +782,10 @@ func (x *fnExec) frameSpecOf(st *State) *frameSpec {
 		for _, n := range names {
 			if single == "" {
 				fs.allowedWhole[n] = true
+			} else if single == "$none" {
+				if fs.allowedLocs[n] == nil {
+					fs.allowedLocs[n] = []string{}
+				}
 			} else {
 				fs.allowedLocs[n] = append(fs.allowedLocs[n], single)
 			}
